@@ -66,10 +66,19 @@ const (
 	srcFW405         // POST on GET-only routes: the framework's own 405
 	srcTeapot        // route handler returns *fiber.Error with code 418
 	srcPlain         // route handler returns errors.New(...)
+	// chain positions / error values added by the audit (explored like the failing-handler variants: see scen)
+	srcSubMW    // the middleware of the sub-app (sub.Use(mw), registered before its routes) returns *fiber.Error 401; a route reached without passing such a middleware raises the same
+	srcReplaced // root middleware calls Next and REPLACES whatever error comes back (route's 418, framework 404) by a fresh *fiber.Error 410
+	srcFiber503 // route handler returns the package-level value fiber.ErrServiceUnavailable (5xx, message = status text)
+	srcWrapped  // route handler returns fmt.Errorf("...: %w", fiber.NewError(409, ...)): the documented default handler maps it with errors.As
 	nSrc
 )
 
-var srcNames = [nSrc]string{"inner-handler", "root-middleware", "framework-404", "framework-405", "fiber-error-418", "plain-error"}
+// nOldSrc: the sources explored under every iteration order in every program.
+const nOldSrc = srcPlain + 1
+
+var srcNames = [nSrc]string{"inner-handler", "root-middleware", "framework-404", "framework-405", "fiber-error-418", "plain-error",
+	"sub-app-middleware", "error-replaced-by-root-middleware", "fiber-error-503-shared-value", "wrapped-fiber-error-409"}
 
 // what every injected error handler does with the error it receives
 const (
@@ -100,20 +109,28 @@ type scen struct {
 
 var scens = func() []scen {
 	var out []scen
-	for s := 0; s < nSrc; s++ {
+	for s := 0; s < nOldSrc; s++ {
 		out = append(out, scen{s, behOK, true})
 	}
 	out = append(out, scen{srcTeapot, behPlainAfterWrite, true})
 	for b := behPlainAfterWrite; b < nBeh; b++ {
-		for s := 0; s < nSrc; s++ {
+		for s := 0; s < nOldSrc; s++ {
 			if s == srcTeapot && b == behPlainAfterWrite {
 				continue
 			}
 			out = append(out, scen{s, b, false})
 		}
 	}
+	// the added sources: answering handlers (and default handlers: these run in programs without any
+	// injected handler too), plus the two failing behaviours whose result depends on the error given
+	for s := nOldSrc; s < nSrc; s++ {
+		out = append(out, scen{s, behOK, false}, scen{s, behPassBack, false}, scen{s, behWrapGiven, false})
+	}
 	return out
 }()
+
+// nFullScens: scens[:nFullScens] are the fully explored ones.
+const nFullScens = nOldSrc + 1
 
 func (sc scen) name() string { return srcNames[sc.src] + " / handler " + behNames[sc.beh] }
 
@@ -128,9 +145,106 @@ var formNames = [nForm]string{"origin", "query", "absolute-uri"}
 
 type mount struct {
 	Parent int    `json:"parent"` // -1 = mounted into the root app, else index of the parent mount (which may itself be nested)
-	Rel    string `json:"prefix"` // prefix given to Use()
+	Rel    string `json:"prefix"` // prefix of the mount relative to its parent ("/" = mounted at the parent's root)
 	Own    bool   `json:"own_error_handler"`
 	Full   string `json:"full_prefix"`
+	Via    int    `json:"-"`                           // how the mounting call is SPELLED (viaNames); every spelling denotes the same mount
+	Spell  string `json:"spelled,omitempty"`           // viaNames[Via] when not the plain Use(prefix, sub)
+	Again  int    `json:"same_app_as_mount,omitempty"` // 1+index of an earlier mount whose *fiber.App object is mounted once more here (0: an app of its own)
+}
+
+// how a mount is written down. All spellings register the sub-app under parent-prefix + Rel.
+const (
+	viaUse           = iota // parent.Use("/api", sub)
+	viaSlash                // parent.Use("/api/", sub)
+	viaGroupRoot            // parent.Group("/api").Use("/", sub)
+	viaGroupSplit           // parent.Group("/").Use("/api", sub); "/api/v1": parent.Group("/api").Use("/v1", sub)
+	viaGroupNoPrefix        // parent.Group("/api").Use(sub)
+	viaNoLead               // parent.Use("api", sub); Rel "/": parent.Use("", sub)
+	viaUseNoPrefix          // Rel "/" only: parent.Use(sub)
+	nVia
+)
+
+var viaNames = [nVia]string{"Use(prefix,sub)", "Use(prefix+slash,sub)", "Group(prefix).Use(slash,sub)", "Group(head).Use(tail,sub)", "Group(prefix).Use(sub)", "Use(prefix-without-leading-slash,sub)", "Use(sub)"}
+
+// viaApplies: spellings that exist for a relative prefix.
+func viaApplies(rel string, via int) bool {
+	if rel == "/" {
+		return via == viaUse || via == viaGroupRoot || via == viaGroupNoPrefix || via == viaNoLead || via == viaUseNoPrefix
+	}
+	return via != viaUseNoPrefix
+}
+
+// spelled returns the Go text of the mounting call and performs it when parent != nil.
+func spelled(parentName, subName string, rel string, via int, parent, sub *fiber.App) string {
+	q := strconv.Quote
+	switch via {
+	case viaSlash:
+		if parent != nil {
+			parent.Use(rel+"/", sub)
+		}
+		return fmt.Sprintf("%s.Use(%s, %s)", parentName, q(rel+"/"), subName)
+	case viaGroupRoot:
+		if parent != nil {
+			parent.Group(rel).Use("/", sub)
+		}
+		return fmt.Sprintf("%s.Group(%s).Use(\"/\", %s)", parentName, q(rel), subName)
+	case viaGroupSplit:
+		head, tail := "/", rel
+		if i := strings.Index(rel[1:], "/"); i >= 0 {
+			head, tail = rel[:i+1], rel[i+1:]
+		}
+		if parent != nil {
+			parent.Group(head).Use(tail, sub)
+		}
+		return fmt.Sprintf("%s.Group(%s).Use(%s, %s)", parentName, q(head), q(tail), subName)
+	case viaGroupNoPrefix:
+		if parent != nil {
+			parent.Group(rel).Use(sub)
+		}
+		return fmt.Sprintf("%s.Group(%s).Use(%s)", parentName, q(rel), subName)
+	case viaNoLead:
+		if parent != nil {
+			parent.Use(rel[1:], sub)
+		}
+		return fmt.Sprintf("%s.Use(%s, %s)", parentName, q(rel[1:]), subName)
+	case viaUseNoPrefix:
+		if parent != nil {
+			parent.Use(sub)
+		}
+		return fmt.Sprintf("%s.Use(%s)", parentName, subName)
+	}
+	if parent != nil {
+		parent.Use(rel, sub)
+	}
+	return fmt.Sprintf("%s.Use(%s, %s)", parentName, q(rel), subName)
+}
+
+// mk builds a mount entry; joinPrefix gives the full prefix of a mount below a parent prefix.
+func mk(parent int, rel string, own bool, parentFull string) mount {
+	return mount{Parent: parent, Rel: rel, Own: own, Full: joinPrefix(parentFull, rel)}
+}
+
+func joinPrefix(parentFull, rel string) string {
+	base := strings.TrimRight(parentFull, "/")
+	if rel == "/" {
+		if base == "" {
+			return "/"
+		}
+		return base
+	}
+	return base + rel
+}
+
+// under: the path suffix below a full mount prefix ("/" + "/x" = "/x").
+func under(full, suffix string) string { return strings.TrimRight(full, "/") + suffix }
+
+// appID: the handler id of the application mounted by entry i (entries that mount one app object share it).
+func (p *program) appID(i int) int {
+	if a := p.Mounts[i].Again; a > 0 {
+		return a
+	}
+	return i + 1
 }
 
 type program struct {
@@ -141,15 +255,53 @@ type program struct {
 	CustomCtx bool    `json:"custom_ctx_funnel"`        // app.NewCtxFunc(...): requests go through customRequestHandler/nextCustom
 	Deep      bool    `json:"deep_tree,omitempty"`      // a mount two nesting levels below a root-level mount exists
 	Order     []int   `json:"use_call_order,omitempty"` // explicit order of the Use calls (mount indices); nil: bottom-up / top-down per NestLate
+	Family    int     `json:"-"`                        // famMain, famSpelling, famPathCfg
+	Cfg       int     `json:"-"`                        // routing configuration of the root app (cfgCase | cfgStrict | cfgUnescape)
+}
+
+const (
+	famMain     = iota // the product described at the top of this file
+	famSpelling        // every spelling of the mounting calls, mounts at "/", one app object mounted twice
+	famPathCfg         // request-path spellings x routing configuration of the root app
+	nFam
+)
+
+var famNames = [nFam]string{"main", "mount-spelling", "path-spelling-x-routing-config"}
+
+const (
+	cfgCase = 1 << iota
+	cfgStrict
+	cfgUnescape
+)
+
+func cfgText(c int) string {
+	var fs []string
+	if c&cfgCase != 0 {
+		fs = append(fs, "CaseSensitive: true")
+	}
+	if c&cfgStrict != 0 {
+		fs = append(fs, "StrictRouting: true")
+	}
+	if c&cfgUnescape != 0 {
+		fs = append(fs, "UnescapePath: true")
+	}
+	return strings.Join(fs, ", ")
 }
 
 type myCtx struct{ fiber.DefaultCtx }
 
 func (p *program) text() string {
 	var b strings.Builder
-	root := "fiber.New()"
+	var fs []string
 	if p.RootOwn {
-		root = "fiber.New(fiber.Config{ErrorHandler: EH0})"
+		fs = append(fs, "ErrorHandler: EH0")
+	}
+	if p.Cfg != 0 {
+		fs = append(fs, cfgText(p.Cfg))
+	}
+	root := "fiber.New()"
+	if len(fs) > 0 {
+		root = "fiber.New(fiber.Config{" + strings.Join(fs, ", ") + "})"
 	}
 	fmt.Fprintf(&b, "app := %s; ", root)
 	if p.CustomCtx {
@@ -157,19 +309,22 @@ func (p *program) text() string {
 	}
 	b.WriteString("app.Use(rootMW); ")
 	for i, m := range p.Mounts {
+		if m.Again > 0 {
+			continue
+		}
 		cfg := ""
 		if m.Own {
 			cfg = fmt.Sprintf("fiber.Config{ErrorHandler: EH%d}", i+1)
 		}
-		fmt.Fprintf(&b, "s%d := fiber.New(%s) [GET /, GET /x]; ", i+1, cfg)
+		fmt.Fprintf(&b, "s%d := fiber.New(%s) [USE mw, GET /, GET /x (pass, h)]; ", i+1, cfg)
 	}
 	use := func(i int) {
 		m := p.Mounts[i]
-		if m.Parent < 0 {
-			fmt.Fprintf(&b, "app.Use(%q, s%d); ", m.Rel, i+1)
-		} else {
-			fmt.Fprintf(&b, "s%d.Use(%q, s%d); ", m.Parent+1, m.Rel, i+1)
+		parent := "app"
+		if m.Parent >= 0 {
+			parent = "s" + strconv.Itoa(p.appID(m.Parent))
 		}
+		b.WriteString(spelled(parent, "s"+strconv.Itoa(p.appID(i)), m.Rel, m.Via, nil, nil) + "; ")
 	}
 	for _, i := range p.mountOrder() {
 		use(i)
@@ -237,7 +392,9 @@ func (p *program) depth(i int) int {
 func (p *program) chain(i int) []string {
 	var c []string
 	for ; i >= 0; i = p.Mounts[i].Parent {
-		c = append([]string{p.Mounts[i].Rel}, c...)
+		if p.Mounts[i].Rel != "/" { // a mount at its parent's root adds nothing to the path
+			c = append([]string{p.Mounts[i].Rel}, c...)
+		}
 	}
 	return c
 }
@@ -270,7 +427,7 @@ func hasNested(ms []mount) bool {
 
 // structures enumerates every set of <= maxMounts mounts: root-level mounts with pairwise distinct
 // prefixes, plus children (one level) of one root-level mount with pairwise distinct relative prefixes.
-func structures(maxMounts int) [][]mount {
+func structures(maxMounts int, prefixes []string) [][]mount {
 	var out [][]mount
 	owns := []bool{false, true}
 	var recRoot func(start int, cur []mount)
@@ -293,8 +450,7 @@ func structures(maxMounts int) [][]mount {
 				}
 				for i := start; i < len(nestedRel); i++ {
 					for _, o := range owns {
-						full := c[parent].Full + nestedRel[i]
-						recChild(i+1, append(c[:len(c):len(c)], mount{parent, nestedRel[i], o, full}))
+						recChild(i+1, append(c[:len(c):len(c)], mk(parent, nestedRel[i], o, c[parent].Full)))
 					}
 				}
 			}
@@ -311,7 +467,7 @@ func structures(maxMounts int) [][]mount {
 		}
 		for i := start; i < len(prefixes); i++ {
 			for _, o := range owns {
-				recRoot(i+1, append(cur[:len(cur):len(cur)], mount{-1, prefixes[i], o, prefixes[i]}))
+				recRoot(i+1, append(cur[:len(cur):len(cur)], mk(-1, prefixes[i], o, "")))
 			}
 		}
 	}
@@ -328,11 +484,7 @@ func deepStructures(extra int) [][]mount {
 		for _, r1 := range deepAlpha {
 			for _, r2 := range deepAlpha {
 				for own := 0; own < 8; own++ {
-					ch := []mount{
-						{-1, r0, own&1 != 0, r0},
-						{0, r1, own&2 != 0, r0 + r1},
-						{1, r2, own&4 != 0, r0 + r1 + r2},
-					}
+					ch := []mount{mk(-1, r0, own&1 != 0, ""), mk(0, r1, own&2 != 0, r0), mk(1, r2, own&4 != 0, r0+r1)}
 					out = append(out, ch)
 					if extra == 0 {
 						continue
@@ -347,7 +499,7 @@ func deepStructures(extra int) [][]mount {
 								continue
 							}
 							for _, o := range owns {
-								out = append(out, append(ch[:3:3], mount{parent, rx, o, base + rx}))
+								out = append(out, append(ch[:3:3], mk(parent, rx, o, base)))
 							}
 						}
 					}
@@ -376,9 +528,9 @@ func permutations(n int) [][]int {
 	return out
 }
 
-func programs(maxMounts int, quick bool) []program {
+func mainPrograms(maxMounts int, quick bool) []program {
 	var out []program
-	for _, ms := range structures(maxMounts) {
+	for _, ms := range structures(maxMounts, prefixes) {
 		lates := []bool{false}
 		if hasNested(ms) && !(quick && len(ms) >= 3) {
 			lates = []bool{false, true} // quick: late nesting only for programs with <=2 mounts
@@ -426,15 +578,193 @@ func programs(maxMounts int, quick bool) []program {
 	return out
 }
 
+// programs: all families (C08_ONLY_FAMILY=<family name>: development aid, runs one family).
+func programs(maxMounts int, quick bool) []program {
+	only := os.Getenv("C08_ONLY_FAMILY")
+	var out []program
+	if only == "" || only == famNames[famMain] {
+		out = append(out, mainPrograms(maxMounts, quick)...)
+	}
+	if only == "" || only == famNames[famSpelling] {
+		out = append(out, spellingPrograms(quick)...)
+	}
+	if only == "" || only == famNames[famPathCfg] {
+		out = append(out, pathCfgPrograms(quick)...)
+	}
+	return out
+}
+
+// spellRoot: root-level prefixes of the mount-spelling family: the main alphabet plus "/" (a sub-app
+// mounted at the root of its parent: it contains every path).
+var spellRoot = []string{"/", "/api", "/api-v2", "/api/v1", "/ap", "/a"}
+
+// spellingPrograms: the mount-spelling family. Every structure of <=2 mounts over spellRoot (children:
+// nestedRel) with ONE mount, or ALL mounts, written in every applicable spelling (viaNames) - the plain
+// spelling of structures without a "/" mount is the main family - plus one app OBJECT mounted twice:
+// at two root-level prefixes, and at a root-level prefix and below another mount.
+func spellingPrograms(quick bool) []program {
+	var out []program
+	emit := func(ms []mount) {
+		ms = append([]mount(nil), ms...)
+		for i := range ms {
+			ms[i].Spell = ""
+			if ms[i].Via != viaUse {
+				ms[i].Spell = viaNames[ms[i].Via]
+			}
+		}
+		lates := []bool{false}
+		if hasNested(ms) {
+			lates = []bool{false, true}
+		}
+		for _, late := range lates {
+			for _, rootOwn := range []bool{false, true} {
+				for _, catch := range []bool{false, true} {
+					out = append(out, program{Mounts: ms, NestLate: late, RootOwn: rootOwn, RootCatch: catch, Family: famSpelling})
+				}
+			}
+		}
+	}
+	for _, base := range structures(2, spellRoot) {
+		if len(base) == 0 {
+			continue
+		}
+		slashMount := false
+		for _, m := range base {
+			slashMount = slashMount || m.Rel == "/"
+		}
+		seen := map[[2]int]bool{}
+		for v := 0; v < nVia; v++ {
+			for mask := 1; mask < 1<<len(base); mask++ {
+				vec := [2]int{viaUse, viaUse}
+				ok := true
+				for i := range base {
+					if mask&(1<<i) != 0 {
+						vec[i] = v
+					}
+					ok = ok && viaApplies(base[i].Rel, vec[i])
+				}
+				if !ok || seen[vec] || (vec == [2]int{viaUse, viaUse} && !slashMount) {
+					continue
+				}
+				seen[vec] = true
+				ms := append([]mount(nil), base...)
+				for i := range ms {
+					ms[i].Via = vec[i]
+				}
+				emit(ms)
+			}
+		}
+	}
+	owns := []bool{false, true}
+	for i, a := range spellRoot {
+		for _, b := range spellRoot[i+1:] {
+			for _, o := range owns {
+				again := mk(-1, b, o, "")
+				again.Again = 1
+				emit([]mount{mk(-1, a, o, ""), again})
+			}
+		}
+	}
+	for _, a := range deepAlpha {
+		for _, r := range deepAlpha {
+			for _, b := range deepAlpha {
+				if a == b {
+					continue
+				}
+				for own := 0; own < 4; own++ {
+					again := mk(-1, b, own&2 != 0, "")
+					again.Again = 2
+					emit([]mount{mk(-1, a, own&1 != 0, ""), mk(0, r, own&2 != 0, a), again})
+				}
+			}
+		}
+	}
+	return out
+}
+
+// pathCfgs: routing configurations of the root application in the path-spelling family.
+var pathCfgs = []int{0, cfgCase, cfgStrict, cfgUnescape, cfgCase | cfgStrict | cfgUnescape}
+
+// pathCfgPrograms: the path-spelling family. Every structure of <=2 mounts of the main alphabet (plain
+// spelling, sub-apps complete before being mounted) x root configuration in pathCfgs; requestPaths adds
+// pathVariants to the request paths of these programs.
+func pathCfgPrograms(quick bool) []program {
+	var out []program
+	for _, ms := range structures(2, prefixes) {
+		if len(ms) == 0 {
+			continue
+		}
+		for _, cfg := range pathCfgs {
+			for _, rootOwn := range []bool{false, true} {
+				for _, catch := range []bool{false, true} {
+					out = append(out, program{Mounts: ms, RootOwn: rootOwn, RootCatch: catch, Family: famPathCfg, Cfg: cfg})
+				}
+			}
+		}
+	}
+	return out
+}
+
+// pathVariants: other spellings of the paths at and below every mount prefix F: trailing slashes, an
+// empty segment, another letter case, a percent-encoded letter, a percent-encoded slash at the boundary.
+func pathVariants(p *program) []string {
+	var out []string
+	for _, m := range p.Mounts {
+		f := m.Full
+		if f == "/" {
+			continue
+		}
+		flip := f[:1] + strings.ToUpper(f[1:2]) + f[2:]
+		pct := f[:1] + fmt.Sprintf("%%%02X", f[1]) + f[2:]
+		out = append(out, f+"/", f+"/x/", f+"//x", flip+"/x", strings.ToUpper(f), pct+"/x", f+"%2Fx")
+	}
+	return out
+}
+
+// modelPath: the request path as the application sees it (Ctx.Path()): percent-decoded under UnescapePath,
+// the bytes of the request line otherwise. Letter case and trailing slashes are never touched.
+func modelPath(p *program, path string) string {
+	if p.Cfg&cfgUnescape == 0 || !strings.Contains(path, "%") {
+		return path
+	}
+	var b []byte
+	for i := 0; i < len(path); i++ {
+		if path[i] == '%' && i+2 < len(path) {
+			if v, err := strconv.ParseUint(path[i+1:i+3], 16, 8); err == nil {
+				b = append(b, byte(v))
+				i += 2
+				continue
+			}
+		}
+		b = append(b, path[i])
+	}
+	return string(b)
+}
+
+// foldedWant: the selection when prefix containment is read without regard to letter case. Under
+// case-insensitive routing (the default) /Api/x is served by the routes of the app mounted at /api; the
+// statement does not say whether /api then "contains" /Api/x: both readings are accepted there.
+func foldedWant(p *program, path string) []int {
+	q := *p
+	q.Mounts = append([]mount(nil), p.Mounts...)
+	for i := range q.Mounts {
+		q.Mounts[i].Full = strings.ToLower(q.Mounts[i].Full)
+	}
+	return refSelect(&q, strings.ToLower(path))
+}
+
 func requestPaths(p *program) []string {
 	set := map[string]bool{"/api-v2/x": true, "/apix": true, "/other": true}
 	for _, q := range prefixes {
 		set[q] = true
 		set[q+"/x"] = true
 	}
+	if p.Family == famSpelling {
+		set["/"], set["/x"] = true, true
+	}
 	for i, m := range p.Mounts {
 		set[m.Full] = true
-		set[m.Full+"/x"] = true
+		set[under(m.Full, "/x")] = true
 		if m.Parent >= 0 {
 			// bogus prefixes: the mount's chain of relative prefixes with ancestors dropped
 			for _, q := range p.partialPrefixes(i) {
@@ -444,6 +774,11 @@ func requestPaths(p *program) []string {
 		}
 		if p.Deep {
 			set[m.Full+"x/x"] = true // not on a segment boundary of the real prefix
+		}
+	}
+	if p.Family == famPathCfg {
+		for _, v := range pathVariants(p) {
+			set[v] = true
 		}
 	}
 	out := make([]string, 0, len(set))
@@ -459,7 +794,7 @@ func requestPaths(p *program) []string {
 
 // contains: the mount prefix contains the request path on a segment boundary.
 func contains(prefix, path string) bool {
-	return path == prefix || strings.HasPrefix(path, prefix+"/")
+	return prefix == "/" || path == prefix || strings.HasPrefix(path, prefix+"/")
 }
 
 // refSelect returns the handler ids the statement allows (0 = root, i+1 = mount i): the innermost
@@ -476,9 +811,11 @@ func refSelect(p *program, path string) []int {
 		switch {
 		case len(m.Full) > best:
 			best = len(m.Full)
-			ids = []int{i + 1}
+			ids = []int{p.appID(i)}
 		case len(m.Full) == best:
-			ids = append(ids, i+1)
+			if id := p.appID(i); ids[0] != id {
+				ids = append(ids, id)
+			}
 		}
 	}
 	if len(ids) == 0 {
@@ -505,7 +842,7 @@ func routedGET(p *program, path string) bool {
 		return true
 	}
 	for _, m := range p.Mounts {
-		if path == m.Full || path == m.Full+"/x" {
+		if path == m.Full || path == under(m.Full, "/x") {
 			return true
 		}
 	}
@@ -654,8 +991,14 @@ func makeRoute(id int) fiber.Handler {
 		case srcInner:
 			_ = c.Status(200).SendString("partial response")
 			e = fiber.NewError(422, "inner failure")
-		case srcTeapot:
+		case srcTeapot, srcReplaced:
 			e = fiber.NewError(418, "short and stout")
+		case srcSubMW:
+			e = fiber.NewError(401, "not past this sub-app")
+		case srcFiber503:
+			e = fiber.ErrServiceUnavailable
+		case srcWrapped:
+			e = fmt.Errorf("lookup failed: %w", fiber.NewError(409, "conflict"))
 		case srcPlain:
 			e = errors.New("plain failure")
 		case srcFW404:
@@ -669,17 +1012,41 @@ func makeRoute(id int) fiber.Handler {
 }
 
 func rootMW(c fiber.Ctx) error {
-	if st.src == srcRootMW {
+	switch st.src {
+	case srcRootMW:
 		e := fiber.NewError(403, "middleware says no")
 		st.raised, st.raiser = e, 0
 		return e
+	case srcReplaced:
+		// the chain below fails (route's 418 or the framework's 404/405); this frame returns ANOTHER error to the framework
+		if err := c.Next(); err != nil {
+			e := fiber.NewError(410, "replaced: "+err.Error())
+			st.raised, st.raiser = e, 0
+			return e
+		}
+		return nil
 	}
 	return c.Next()
 }
 
+// subMW: middleware of sub-app id, registered before its routes (sub.Use(mw)).
+func subMW(id int) fiber.Handler {
+	return func(c fiber.Ctx) error {
+		if st.src == srcSubMW {
+			e := fiber.NewError(401, "not past this sub-app")
+			st.raised, st.raiser = e, id
+			return e
+		}
+		return c.Next()
+	}
+}
+
+// passNext: first handler of the two-handler route GET /x (the error comes back through Ctx.Next's in-route branch).
+func passNext(c fiber.Ctx) error { return c.Next() }
+
 func build(p *program) fasthttp.RequestHandler {
 	st.phase, st.bldPos, st.bldRad = 0, 0, st.bldRad[:0]
-	cfg := fiber.Config{}
+	cfg := fiber.Config{CaseSensitive: p.Cfg&cfgCase != 0, StrictRouting: p.Cfg&cfgStrict != 0, UnescapePath: p.Cfg&cfgUnescape != 0}
 	if p.RootOwn {
 		cfg.ErrorHandler = makeEH(0)
 	}
@@ -690,22 +1057,27 @@ func build(p *program) fasthttp.RequestHandler {
 	app.Use(rootMW)
 	subs := make([]*fiber.App, len(p.Mounts))
 	for i, m := range p.Mounts {
+		if m.Again > 0 {
+			subs[i] = subs[m.Again-1] // the same app object is mounted once more
+			continue
+		}
 		c := fiber.Config{}
 		if m.Own {
 			c.ErrorHandler = makeEH(i + 1)
 		}
 		subs[i] = fiber.New(c)
 		h := makeRoute(i + 1)
+		subs[i].Use(subMW(i + 1))
 		subs[i].Get("/", h)
-		subs[i].Get("/x", h)
+		subs[i].Get("/x", passNext, h)
 	}
 	for _, i := range p.mountOrder() {
 		m := p.Mounts[i]
-		if m.Parent < 0 {
-			app.Use(m.Rel, subs[i])
-		} else {
-			subs[m.Parent].Use(m.Rel, subs[i])
+		parent := app
+		if m.Parent >= 0 {
+			parent = subs[m.Parent]
 		}
+		spelled("", "", m.Rel, m.Via, parent, subs[i])
 	}
 	if p.RootCatch {
 		app.Get("/*", makeRoute(0))
@@ -804,16 +1176,28 @@ func rel(p *program, g int, path string, want []int) string {
 	if g == 0 {
 		return "root"
 	}
-	m := p.Mounts[g-1]
-	switch {
-	case contains(m.Full, path):
-		return "outer-mount"
-	case strings.HasPrefix(path, m.Full):
-		return "non-boundary-string-prefix-mount"
+	// every entry that mounts the app object g (one app may be mounted more than once)
+	var es []int
+	for i := range p.Mounts {
+		if p.appID(i) == g {
+			es = append(es, i)
+		}
 	}
-	for _, q := range p.partialPrefixes(g - 1) {
-		if contains(q, path) {
-			return "mount-whose-prefix-lost-ancestor-segments" // the path is under the mount's relative prefixes with ancestors dropped
+	for _, i := range es {
+		if contains(p.Mounts[i].Full, path) {
+			return "outer-mount"
+		}
+	}
+	for _, i := range es {
+		if strings.HasPrefix(path, p.Mounts[i].Full) {
+			return "non-boundary-string-prefix-mount"
+		}
+	}
+	for _, i := range es {
+		for _, q := range p.partialPrefixes(i) {
+			if contains(q, path) {
+				return "mount-whose-prefix-lost-ancestor-segments" // the path is under the mount's relative prefixes with ancestors dropped
+			}
 		}
 	}
 	return "unrelated-mount"
@@ -935,11 +1319,18 @@ type policy struct {
 	deviations func(p *program) bool // explore mount.go deviations for this program
 }
 
+// scenRuns: the added families judge selection under another spelling of the program / the request; they run the fully
+// explored scenarios and the answering-handler scenarios of the added sources (what a failing handler yields is
+// independent of the spelling and stays with the main family).
+func scenRuns(p *program, s int, sc scen) bool {
+	return p.Family == famMain || s < nFullScens || sc.beh == behOK
+}
+
 func tierPolicy(r *core.Run) policy {
 	if r.Quick() {
 		return policy{
 			forms: func(p *program) int {
-				if len(p.Mounts) <= 2 {
+				if len(p.Mounts) <= 2 && p.Family == famMain {
 					return nForm
 				}
 				return 1
@@ -949,7 +1340,7 @@ func tierPolicy(r *core.Run) policy {
 		}
 	}
 	return policy{forms: func(p *program) int {
-		if p.Deep && len(p.Mounts) > 3 {
+		if (p.Deep && len(p.Mounts) > 3) || p.Family == famPathCfg {
 			return 1
 		}
 		return nForm
@@ -968,6 +1359,7 @@ func runProgram(r *core.Run, l *core.Local, p *program, pi int, fctx *fasthttp.R
 	}
 	keys := appListKeys(p)
 	ptext := p.text()
+	scratch, scratch2 := core.NewLocal(), core.NewLocal()
 
 	// requests are prepared once per program
 	reqs := make([]*fasthttp.Request, len(paths)*nf*2)
@@ -989,7 +1381,10 @@ func runProgram(r *core.Run, l *core.Local, p *program, pi int, fctx *fasthttp.R
 		for i := range paths {
 			for f := 0; f < nfRun; f++ {
 				for s, sc := range scens {
-					if !sc.full && (onlyFull || !anyInjected) {
+					if !scenRuns(p, s, sc) {
+						continue
+					}
+					if !sc.full && (onlyFull || (!anyInjected && sc.beh != behOK)) {
 						continue // no injected handler anywhere: the behaviour dimension is void
 					}
 					allOrders := allOrdersFull && (sc.full || len(p.Mounts) <= 2)
@@ -1093,8 +1488,15 @@ func runProgram(r *core.Run, l *core.Local, p *program, pi int, fctx *fasthttp.R
 	}
 
 	// judge every case
-	for i, path := range paths {
+	for i, rawPath := range paths {
+		path := modelPath(p, rawPath) // the path the application sees
 		want := refSelect(p, path)
+		var alt []int // the other accepted selection where the statement is silent (letter case under case-insensitive routing)
+		if p.Family == famPathCfg && p.Cfg&cfgCase == 0 {
+			if fw := foldedWant(p, path); !sameIDs(fw, want) {
+				alt = fw
+			}
+		}
 		competing := 0
 		for _, m := range p.Mounts {
 			if strings.HasPrefix(path, m.Full) {
@@ -1121,6 +1523,30 @@ func runProgram(r *core.Run, l *core.Local, p *program, pi int, fctx *fasthttp.R
 				if competing >= 1 || partial {
 					l.Add("nontrivial", int64(cell.evals))
 				}
+				l.Add("evaluations_family_"+famNames[p.Family], int64(cell.evals))
+				if sc.src >= nOldSrc {
+					l.Add("evaluations_added_error_sources", int64(cell.evals))
+				}
+				if p.Family == famSpelling {
+					for _, m := range p.Mounts {
+						if contains(m.Full, path) {
+							switch {
+							case m.Via == viaGroupRoot || m.Via == viaGroupSplit || m.Via == viaGroupNoPrefix:
+								l.Add("evaluations_path_inside_mount_made_through_group", int64(cell.evals))
+							case m.Rel == "/":
+								l.Add("evaluations_path_inside_mount_at_parent_root", int64(cell.evals))
+							case m.Again > 0:
+								l.Add("evaluations_path_inside_second_mount_of_one_app", int64(cell.evals))
+							}
+						}
+					}
+				}
+				if p.Family == famPathCfg && rawPath != path {
+					l.Add("evaluations_percent_decoded_path", int64(cell.evals))
+				}
+				if alt != nil {
+					l.Add("evaluations_letter_case_unspecified", int64(cell.evals))
+				}
 				if p.Deep {
 					l.Add("evaluations_deep_trees", int64(cell.evals))
 					if contains(p.Mounts[2].Full, path) {
@@ -1138,7 +1564,7 @@ func runProgram(r *core.Run, l *core.Local, p *program, pi int, fctx *fasthttp.R
 					l.Add("unspecified_skipped", 1) // two apps mounted at the very same full prefix: identity of the winner not judged
 				}
 				cs := func() map[string]any {
-					return map[string]any{"program": ptext, "mounts": p.Mounts, "request": map[string]any{"path": path, "url_form": formNames[f], "method": map[bool]string{true: "POST", false: "GET"}[sc.src == srcFW405]},
+					return map[string]any{"program": ptext, "mounts": p.Mounts, "request": map[string]any{"path": rawPath, "url_form": formNames[f], "method": map[bool]string{true: "POST", false: "GET"}[sc.src == srcFW405]},
 						"error_source": srcNames[sc.src], "injected_error_handlers": behNames[sc.beh], "construction_order": p.orderKind(), "expected_handler": wantText(want), "handlerless_mounts_that_are_string_prefixes_of_the_path": shadowers(p, path, want)}
 				}
 				if (pi%211 == 0 || (p.Deep && pi%499 == 0)) && i == len(paths)/2 && f == 0 && s == pi%nScen {
@@ -1189,7 +1615,7 @@ func runProgram(r *core.Run, l *core.Local, p *program, pi int, fctx *fasthttp.R
 						ks = append(ks, k)
 					}
 					sort.Strings(ks)
-					sig := fmt.Sprintf("choice-depends-on-map-order loop=%s want=%s seen={%s}", loop, wantKind(want), strings.Join(ks, ","))
+					sig := fmt.Sprintf("choice-depends-on-map-order loop=%s want=%s seen={%s}", loop, wantKind(want), strings.Join(ks, ",")) + qualifier(p, rawPath, want, nil)
 					l.Violate(sig, "the error handler that receives the error depends on Go map iteration order (two orders of the same program and request give different handlers)",
 						cs(),
 						map[string]any{"order_A": map[string]any{"ErrorHandler_appList_order": orderText(keys, a.order), "mount_go_deviation": devText(a.dev), "result": a.o.view()},
@@ -1198,10 +1624,99 @@ func runProgram(r *core.Run, l *core.Local, p *program, pi int, fctx *fasthttp.R
 						"identical result under every iteration order: "+wantText(want))
 					continue
 				}
-				judge(l, p, path, sc, want, dup, cell, &cell.seen[0].o, cs)
+				// judged into a scratch accumulator: where the statement leaves two readings (alt) the case passes
+				// when either holds; signatures of the added families carry the family's qualifier
+				clear(scratch.P.Violations)
+				judge(scratch, p, path, rawPath, sc, want, dup, cell, &cell.seen[0].o, cs)
+				if alt != nil {
+					l.Add("unspecified_skipped", 1)
+					if len(scratch.P.Violations) > 0 {
+						clear(scratch2.P.Violations)
+						judge(scratch2, p, path, rawPath, sc, alt, dup, cell, &cell.seen[0].o, cs)
+						if len(scratch2.P.Violations) == 0 {
+							l.Add("cases_accepted_under_the_case_insensitive_reading", 1)
+							continue
+						}
+					}
+				}
+				for sig, v := range scratch.P.Violations { // at most one
+					l.Violate(sig+qualifier(p, rawPath, want, &cell.seen[0].o), v.What, v.Case, v.Observed, v.Expected)
+				}
 			}
 		}
 	}
+}
+
+func sameIDs(a, b []int) bool {
+	if len(a) != len(b) {
+		return false
+	}
+	for i := range a {
+		if a[i] != b[i] {
+			return false
+		}
+	}
+	return true
+}
+
+// qualifier: signature suffix of the added families (empty in the main family): names the spelling /
+// configuration / path class under which the violation was seen.
+func qualifier(p *program, rawPath string, want []int, o *outcome) string {
+	switch p.Family {
+	case famSpelling:
+		// the mounts involved: the one(s) whose handler is expected; when the root's is expected, the one whose handler ran; else all
+		ids := want
+		if want[0] == 0 && o != nil && o.ngot > 0 {
+			ids = o.gotIDs()
+		}
+		set := map[string]bool{}
+		for i, m := range p.Mounts {
+			involved := ids[0] == 0
+			for _, id := range ids {
+				involved = involved || p.appID(i) == id
+			}
+			if !involved {
+				continue
+			}
+			if m.Via != viaUse {
+				set[viaNames[m.Via]] = true
+			}
+			if m.Rel == "/" {
+				set["mount-at-parent-root"] = true
+			}
+			if m.Again > 0 {
+				set["one-app-mounted-twice"] = true
+			}
+		}
+		var ks []string
+		for k := range set {
+			ks = append(ks, k)
+		}
+		sort.Strings(ks)
+		return " mounts-spelled=" + strings.Join(ks, "+")
+	case famPathCfg:
+		cfg := cfgText(p.Cfg)
+		if cfg == "" {
+			cfg = "default"
+		}
+		return " path=" + pathClass(p, rawPath) + " config={" + cfg + "}"
+	}
+	return ""
+}
+
+var pathClassNames = []string{"trailing-slash", "below-with-trailing-slash", "empty-segment", "other-letter-case-below", "upper-case-prefix", "percent-encoded-letter", "percent-encoded-slash-at-boundary"}
+
+func pathClass(p *program, rawPath string) string {
+	one := *p
+	for _, m := range p.Mounts {
+		one.Mounts = []mount{m}
+		for k, v := range pathVariants(&one) {
+			if v == rawPath {
+				return pathClassNames[k]
+			}
+		}
+	}
+	return "plain"
 }
 
 func devText(d [2]int) any {
@@ -1240,7 +1755,7 @@ func describeGot(p *program, o *outcome, path string, want []int) string {
 }
 
 // judge applies the oracle to the single (order-independent) outcome of a case.
-func judge(l *core.Local, p *program, path string, sc scen, want []int, dup bool, cell *caseCell, o *outcome, mkcs func() map[string]any) {
+func judge(l *core.Local, p *program, path, rawPath string, sc scen, want []int, dup bool, cell *caseCell, o *outcome, mkcs func() map[string]any) {
 	s := sc.src
 	src := srcNames[s]
 	// the error the chain returned
@@ -1258,7 +1773,17 @@ func judge(l *core.Local, p *program, path string, sc scen, want []int, dup bool
 			expCode, expMsg = 405, "Method Not Allowed"
 		} else {
 			expCode = 404
-			expMsg = "Cannot " + map[bool]string{true: "POST", false: "GET"}[s == srcFW405] + " " + path
+			expMsg = "Cannot " + map[bool]string{true: "POST", false: "GET"}[s == srcFW405] + " " + rawPath
+		}
+		// path-spelling family: whether another spelling of a routed path is routed (405) or not (404) depends on the
+		// routing configuration, which the 6-line routing model does not know: either framework error is accepted
+		if s == srcFW405 && p.Family == famPathCfg {
+			switch {
+			case o.ngot == 0 && (o.status == 404 || o.status == 405):
+				expCode = int(o.status)
+			case o.ngot > 0 && (o.errCode == 404 || o.errCode == 405):
+				expCode = int(o.errCode)
+			}
 		}
 	}
 	wantInjected := want[0] != 0 || p.RootOwn
@@ -1341,6 +1866,12 @@ func judge(l *core.Local, p *program, path string, sc scen, want []int, dup bool
 
 func finish(r *core.Run, progs []program, maxMounts int) {
 	c := r.P.Counters
+	if os.Getenv("C08_ONLY_FAMILY") != "" {
+		// development aid: one family only, no vacuity checks, evidence marked non-exhaustive
+		r.Cap("C08_ONLY_FAMILY set: only one family was run")
+		r.Finish(core.Evidence{Level: "exploration", Exhaustive: false, Coverage: map[string]any{"evaluations": c["evaluations"], "distinct_nontrivial": c["nontrivial"], "rule": "development run of one family", "bounds": map[string]any{"programs": len(progs)}}})
+		return
+	}
 	if c["evaluations_with_owned_map_range"] == 0 {
 		// with violations present the run is reported normally (a tree that bypasses App.ErrorHandler is a finding, not a harness fault)
 		if len(r.P.Violations) == 0 {
